@@ -1069,7 +1069,7 @@ func (self *Node) indexOrGet(idx int, key string) (*Node, int) {
 	}
 
 	pr := self.skipIndexPair(idx)
-	if pr != nil && pr.Key == key {
+	if pr != nil && pr.Key == key && !pr.removed() {
 		return &pr.Value, idx
 	}
 
